@@ -821,7 +821,17 @@ func rulesStackOps(c *Ctx, r *Report) {
 			}
 			bo, ok := iff.Cond.(*ssa.BinOp)
 			if !ok {
-				continue
+				// the test as a predicate of the frame: step.done() = (s.i == len(s.n.Children))
+				if cl, isCall := iff.Cond.(*ssa.Call); isCall && len(cl.Call.Args) == 1 {
+					if g := cl.Call.StaticCallee(); g != nil && g.Pkg == f.Pkg && len(g.Blocks) == 1 {
+						if rt, isRt := lastInstr(g.Blocks[0]).(*ssa.Return); isRt && len(rt.Results) == 1 {
+							bo, ok = rt.Results[0].(*ssa.BinOp)
+						}
+					}
+				}
+				if !ok {
+					continue
+				}
 			}
 			var op token.Token
 			switch {
